@@ -220,7 +220,8 @@ Definition path_sort_modelled (s : path_sort_site) : bool := match s with PsEnvL
 Inductive read_kind := RClock | RCwd | RResolve | RAbsPath | REnviron | RPlatform | RRandom
   | RLocale    (* text I/O without encoding=, locale module, default encodings *)
   | RListdir   (* os.listdir / scandir / walk / glob / Path.iterdir|glob|rglob: order given by the file system *)
-  | RMtime.    (* st_mtime / getmtime / ... *)
+  | RMtime     (* st_mtime / getmtime / ... *)
+  | RInterp.   (* interpreter state: dir(builtins), __file__, sys.argv, sys.version*, sys.flags, sys.modules *)
 Inductive read_site :=
 | RdNowUtc            (* jinja/__init__.py _generate_code: self._env.now_utc = utcnow() *)
 | RdNowUtcInit        (* jinja/environment.py: now_utc = datetime(MINYEAR, 1, 1) -- a constant *)
@@ -233,6 +234,9 @@ Inductive read_site :=
 | RdMembership        (* a directory listing used only for a membership / emptiness test *)
 | RdPpRunProgram      (* _postprocessors.py ExternalProgramEditInPlace: sys.executable to run the user's --pp-run-program script; that
                          program is an input of the run and may do anything: outside the property *)
+ | RdBuiltinsClosed    (* dir(builtins) united with the six names `site` adds: the same list however the interpreter was started *)
+| RdBuiltinsSiteDependent (* dir(builtins) alone in PYTHON_RESERVED_IDENTIFIERS: differs under python -S -- known finding
+                             F-PY-BUILTINS-SITE; the interpreter's start-up flags are not part of [env], the paired run Rsite covers it *)
 | RdFrontEndInput     (* a path passed to pydsdl.read_files / read_namespace: where the inputs are; the parser opens the files, the
                          objects it returns carry source_file_path, which is tracked as a read of its own *)
 | RdAsciiPackagedText (* read_text() without encoding= of packaged *.yaml files that are pure ASCII (checked at scan time) *)
